@@ -15,6 +15,7 @@ type stiffOut struct {
 	K       [][]string
 	KRev    [][]string // the same sub-span given in the other order
 	KAgain  [][]string // the same sub-span asked for once more at the end
+	KLater  [][]string // the same sub-span of an equal bar asked for after every other case of the run was served
 	Panic   string `json:",omitempty"`
 }
 
@@ -64,6 +65,21 @@ func cmdStiff() {
 				L: fs(bar.Length()), C: fs(bar.RefFrame().Cos()), S: fs(bar.RefFrame().Sin()), K: rows, KRev: revRows,
 				KAgain: matRows(bar.StiffnessGlobalMat(t1, t2)),
 			}
+		}()
+	}
+	// second pass, after hundreds of other bars and sub-spans went through the process: an equal bar, the same sub-span
+	for n, c := range cases {
+		if outs[n].Panic != "" {
+			continue
+		}
+		func() {
+			defer func() {
+				if r := recover(); r != nil {
+					outs[n].Panic = "second pass: " + toString(r)
+				}
+			}()
+			bar := makeBar("b", pf(c.X1), pf(c.Y1), pf(c.X2), pf(c.Y2), pf(c.E), pf(c.A), pf(c.I), c.Pin)
+			outs[n].KLater = matRows(bar.StiffnessGlobalMat(nums.MakeTParam(pf(c.T1)), nums.MakeTParam(pf(c.T2))))
 		}()
 	}
 	writeJSON(outs)
